@@ -6,6 +6,7 @@ import (
 	"crypto/ecdsa"
 	"crypto/ed25519"
 	"crypto/rsa"
+	"crypto/sha1"
 	"crypto/sha256"
 	"crypto/sha512"
 	"crypto/x509"
@@ -120,6 +121,9 @@ func algOIDOf(ai []byte) []byte {
 
 func hashOf(h crypto.Hash, msg []byte) []byte {
 	switch h {
+	case crypto.SHA1:
+		d := sha1.Sum(msg)
+		return d[:]
 	case crypto.SHA256:
 		d := sha256.Sum256(msg)
 		return d[:]
